@@ -257,6 +257,8 @@ def run(ctx):
     aliasfam.run_c01(ctx, ctx.rng, ctx.n(60, 800), impl, ['jer', 'xer'], py_equal, only_text_safe=True)
     from .. import timefam as _timefam
     _timefam.run(ctx, 'C02', ctx.rng, ctx.n(25, 300), _timefam.TXT)
+    from .. import twomark as _twomark
+    _twomark.run(ctx, 'C02', ctx.rng, ctx.n(40, 500), ['jer', 'xer'])
 
 
 def replay(ctx, path):
